@@ -32,6 +32,17 @@ FAIRNESS_BOUND = 300_000     # consecutive yield points one thread may run while
 
 HOT_FILES = ("experiment_evaluator.py", "wraper_functions.py")
 _HARNESS_DIR = os.path.dirname(os.path.abspath(__file__)) + os.sep
+_REAL_LOCK_MODULES = ("threading.py", "_threading_local.py", "tempfile.py", "queue.py", "sched.py", "socket.py", "selectors.py",
+                      "subprocess.py", "zipimport.py", "pkgutil.py", "runpy.py", "_pyio.py", "reprlib.py", "functools.py", "random.py",
+                      "socketserver.py", "ssl.py", "mailbox.py", "shelve.py", "dbm", "sqlite3")
+_REAL_LOCK_PACKAGES = ("logging", "concurrent", "multiprocessing", "asyncio", "importlib", "unittest", "http", "urllib", "email", "xml")
+
+
+def _holds_real_locks(fn):
+    parts = fn.replace("\\", "/").split("/")
+    return parts[-1] in _REAL_LOCK_MODULES or any(p in _REAL_LOCK_PACKAGES for p in parts[-4:-1])
+
+
 FOREIGN_POINT_BUDGET = 300_000   # per run: beyond this, foreign (non-package) frames run atomically again
 _ACTIVE = None          # the Scheduler currently running (one per process at a time)
 SINGLE_THREADED = True  # outside a simulation the harness processes have exactly one thread
@@ -192,8 +203,9 @@ class FrameClasses:
                 else:
                     cls = 6
             elif (fn.startswith(_HARNESS_DIR) or fn.startswith("<frozen") or "importlib" in fn or fn.startswith("<")
-                  or not fn.endswith(".py")):
-                cls = 0                      # the harness itself, the import system, synthetic code
+                  or not fn.endswith(".py") or _holds_real_locks(fn)):
+                cls = 0                      # the harness itself, the import system, synthetic code, modules that guard Python-level
+                #                              critical sections with REAL locks (parking a thread inside one would block the process)
             else:
                 cls = 7                      # any other Python code a simulated thread runs into (stdlib, third party): line granularity
             h = 0
@@ -717,7 +729,9 @@ class Scheduler:
                 f = frame.f_back
                 while f is not None:
                     fc = classify(f.f_code)[0]
-                    if fc in (1, 2, 5, 6):
+                    if fc == 2:
+                        return local_gen      # reached from the publish / check-then-act code: part of that window, hot
+                    if fc in (1, 5, 6):
                         return local_foreign
                     if fc == 0 and f.f_code.co_filename.startswith(_HARNESS_DIR):
                         return None
